@@ -449,6 +449,9 @@ func (r *Run) Step(op Op) {
 			// the entry point fixes the datatype of what it stored: known without waiting for the feed
 			m.Info(op.C, op.Key).IsJSON = pj
 		}
+	} else if res.Err == "" && family(op).meta && post.Present && !post.Equal(p) {
+		// a *WithMeta write that kept the CAS: a new version all the same, with its own datatype
+		m.Info(op.C, op.Key).IsJSON = pinnedJSON(op, post)
 	}
 	if post.Present && post.Cas != p.Cas && !family(op).meta && post.Cas > m.MaxIssued {
 		m.MaxIssued = post.Cas
